@@ -5,5 +5,6 @@ CONSTANTS
   Kinds = {"plain"}
   CloseTarget = "current"
   RegisterGuard = TRUE
+  Record = TRUE
 INVARIANTS ServingWhileRunning
 CHECK_DEADLOCK FALSE
